@@ -388,6 +388,22 @@ def rule_shared_job_retired(ctx):
         if in_cleanup:
             continue
         ctx.check(covered(a), rh.fq, f"`{ast.unparse(a)[:60]}` is covered by a cleanup that completes the job's future", "when the task running a hash job is cancelled (the requesting step's connection broke, or the builder stops), the future stays pending and the job stays in flight: later requests for the same path are handed the dead job and never return", "try/finally completes the future", where=ctx.where_of(rh, a))
+    # the normal outcomes are delivered as such: result after the database write, failure as exception
+    inner = ctx.prog.func("executor.Executor._run_hash_job")
+    n_ok = 0
+    for tr, st in flow.paths_of(inner):
+        if st not in ("return", "fall"):
+            continue
+        calls = [e[1] for e in tr if e[0] == "call"]
+        done = [c for c in calls if c in ("hash_job.future.set_result", "hash_job.future.set_exception", "hash_job.future.cancel")]
+        tests = [(e[1], e[2]) for e in tr if e[0] == "test"]
+        already = ("not hash_job.future.done()", False) in tests or ("hash_job.future.done()", True) in tests
+        if not done and not already:
+            ctx.bad(inner.fq, "every normal exit delivers an outcome to the waiters", f"a path (tests {tests[-3:]}) returns without result, exception or cancellation: waiters are only released by the clean-up of the caller, as cancelled, although the hash was computed", where=ctx.where_of(inner))
+            break
+        n_ok += 1
+    else:
+        ctx.check(n_ok >= 3, inner.fq, "every normal exit delivers an outcome to the waiters", f"{n_ok} exits", f"{n_ok} exits")
     # the inner function is only reachable through the covered entry
     callers = [cs.caller.fq for sites in ctx.cg.sites.values() for cs in sites if callee_name(cs.node) == "_run_hash_job"]
     ctx.check(set(callers) == {"executor.Executor.run_hash_job"}, "executor.Executor._run_hash_job", "only run through the covered entry point", f"called from {sorted(set(callers))}", "run_hash_job only")
@@ -436,12 +452,14 @@ RULES = [
     Rule("R-C16-5", "failure mapping", rule_failure_mapping, min_instances=5),
     Rule("R-C16-6", "peers cannot wedge the server", rule_peers, min_instances=5),
     Rule("R-C16-8", "replies may be fragmented; connection state is per connection", rule_fragmentation, min_instances=5),
-    Rule("R-C16-9", "a shared hash job is retired however its task ends", rule_shared_job_retired, min_instances=7),
+    Rule("R-C16-9", "a shared hash job is retired however its task ends", rule_shared_job_retired, min_instances=8),
     Rule("R-C16-10", "waiting handlers are released at shutdown", rule_waits_end_at_shutdown, min_instances=3),
     Rule("R-C16-7", "pending futures are completed only when not cancelled", rule_future_typestate, min_instances=4),
 ]
 
 MUTANTS = [
+    Mutant("hash-result-not-delivered", "executor.py", in_function("Executor._run_hash_job", replace_once("            hash_job.future.set_result(new_hash)\n", "            pass\n")), ("R-C16-9",)),
+    Mutant("hash-failure-not-delivered", "executor.py", in_function("Executor._run_hash_job", replace_once("                hash_job.future.set_exception(exc)\n", "")), ("R-C16-9",)),
     Mutant("end-of-phase-wait-ignores-stop", "director.py", in_function("DirectorHandler._wait_for_end_build_phase", lambda t: t.replace("        events = [self.stop_event]\n        if self.watcher is not None:\n            events.append(self.watcher.busy_watching)\n        await wait_for_any_event(*events)\n", "        event = self.stop_event if self.watcher is None else self.watcher.busy_watching\n        await event.wait()\n", 1) if "events = [self.stop_event]" in t else None), ("R-C16-10",)),
     Mutant("change-wait-ignores-stop", "director.py", in_function("DirectorHandler._wait_for_change", replace_once("await wait_for_any_event(event, self.stop_event)", "await wait_for_any_event(event)")), ("R-C16-10",)),
     Mutant("hash-job-registered-not-queued", "hash_queue.py", in_function("HashQueue.submit", replace_once("        self.queue.put_nowait(job)\n", "")), ("R-C16-9",)),
